@@ -1,5 +1,7 @@
 //! C19: every Address operation x boundary-biased operand pairs x all 64 alignments.
-//! case:  mode op a b    obs: kind(0 None,1 value,2 panic) value flag
+//! case:  mode op a b [c]    obs: kind(0 None,1 value,2 panic,9 the two address types differ) value flag
+//! ops 0-14: arithmetic / masks / cmp / ==;  15 partial_cmp, 16 <, 17 <=, 18 >, 19 >=, 20 !=, 21 max, 22 min,
+//! 23 clamp(b, c), 24 == with the operands exchanged.  EVERY op runs on GuestAddress and on MemoryRegionAddress.
 use crate::tok::n;
 use crate::{util, Rng, Suite, Tier, Tok};
 use vm_memory::{Address, GuestAddress, MemoryRegionAddress};
@@ -22,19 +24,32 @@ fn pan(o: Option<u64>) -> Vec<Tok> {
     }
 }
 
+fn ord(o: std::cmp::Ordering) -> u64 {
+    match o {
+        std::cmp::Ordering::Less => 0,
+        std::cmp::Ordering::Equal => 1,
+        std::cmp::Ordering::Greater => 2,
+    }
+}
+
 fn exec(case: &[Tok]) -> Vec<Tok> {
     let (op, a, b) = (case[1].u(), case[2].u(), case[3].u());
-    // both address types are instantiations of the same macro: run both, they must agree
-    let g = exec_one::<GuestAddress>(op, a, b);
-    let r = exec_one::<MemoryRegionAddress>(op, a, b);
+    let c = if case.len() > 4 { case[4].u() } else { 0 };
+    // both address types are instantiations of the same macro and carry the same derives: run both,
+    // they must agree (kind 9 otherwise, which neither the model nor the checker accepts)
+    let g = exec_one::<GuestAddress>(op, a, b, c);
+    let r = exec_one::<MemoryRegionAddress>(op, a, b, c);
     if g != r {
-        return vec![n(9u8), n(0u8), n(0u8)];
+        // kind 9; the value GuestAddress gave, the value MemoryRegionAddress gave (for the reader of a replay)
+        return vec![n(9u8), n(g[1].u()), n(r[1].u())];
     }
     g
 }
 
-fn exec_one<A: Address<V = u64> + std::panic::RefUnwindSafe>(op: u64, a: u64, b: u64) -> Vec<Tok> {
+#[allow(clippy::eq_op, clippy::nonminimal_bool)]
+fn exec_one<A: Address<V = u64> + std::panic::RefUnwindSafe>(op: u64, a: u64, b: u64, c: u64) -> Vec<Tok> {
     let x = A::new(a);
+    let y = A::new(b);
     match op {
         0 => opt(x.checked_add(b).map(|v| v.raw_value())),
         1 => opt(x.checked_sub(b).map(|v| v.raw_value())),
@@ -54,16 +69,24 @@ fn exec_one<A: Address<V = u64> + std::panic::RefUnwindSafe>(op: u64, a: u64, b:
         6 => val(x.mask(b)),
         7 => val((x & b).raw_value()),
         8 => val((x | b).raw_value()),
-        9 => val(match x.cmp(&A::new(b)) {
-            std::cmp::Ordering::Less => 0,
-            std::cmp::Ordering::Equal => 1,
-            std::cmp::Ordering::Greater => 2,
-        }),
+        9 => val(ord(x.cmp(&y))),
         10 => val((x == A::new(b)) as u64),
         11 => pan(util::catch(|| x.unchecked_add(b).raw_value())),
         12 => pan(util::catch(|| x.unchecked_sub(b).raw_value())),
         13 => pan(util::catch(|| x.unchecked_offset_from(A::new(b)))),
         14 => pan(util::catch(|| x.unchecked_align_up(b).raw_value())),
+        // the comparison surface callers actually write: operators (PartialOrd / PartialEq provided methods)
+        // and the Ord provided methods
+        15 => opt(x.partial_cmp(&y).map(ord)),
+        16 => val((x < y) as u64),
+        17 => val((x <= y) as u64),
+        18 => val((x > y) as u64),
+        19 => val((x >= y) as u64),
+        20 => val((x != y) as u64),
+        21 => val(x.max(y).raw_value()),
+        22 => val(x.min(y).raw_value()),
+        23 => pan(util::catch(|| x.clamp(y, A::new(c)).raw_value())),
+        24 => val((y == x) as u64),
         _ => panic!("bad op"),
     }
 }
@@ -75,8 +98,8 @@ fn gen(rng: &mut Rng, tier: Tier, emit: &mut dyn FnMut(Vec<Tok>)) {
     // all ops x boundary pairs (subsampled deterministically for the quick tier)
     let stride = if tier == Tier::Quick { 7 } else { 1 };
     let mut i = 0usize;
-    for op in 0..=14u64 {
-        if op == 5 || op == 14 {
+    for op in 0..=24u64 {
+        if op == 5 || op == 14 || op == 23 {
             continue;
         }
         for &a in &bs {
@@ -98,9 +121,34 @@ fn gen(rng: &mut Rng, tier: Tier, emit: &mut dyn FnMut(Vec<Tok>)) {
             case(5, a, p);
         }
     }
+    // clamp(lo, hi): three operands; the values 2^63 apart and the neighbours of a matter most
+    let nclamp = if tier == Tier::Quick { 12_000 } else { 400_000 };
+    for _ in 0..nclamp {
+        let a = if rng.chance(1, 4) { rng.next() } else { *rng.pick(&bs) };
+        let near = |rng: &mut Rng, v: u64| v.wrapping_add(rng.below(5)).wrapping_sub(2);
+        let mut lo = match rng.below(4) {
+            0 => near(rng, a),
+            1 => rng.next(),
+            _ => *rng.pick(&bs),
+        };
+        let mut hi = match rng.below(4) {
+            0 => near(rng, a),
+            1 => near(rng, lo),
+            2 => rng.next(),
+            _ => *rng.pick(&bs),
+        };
+        if lo > hi && !rng.chance(1, 8) {
+            std::mem::swap(&mut lo, &mut hi); // mostly well-formed bounds; lo > hi is the documented panic
+        }
+        emit(vec![n(mode), n(23u8), n(a), n(lo), n(hi)]);
+    }
+    let mut case = |op: u64, a: u64, b: u64| emit(vec![n(mode), n(op), n(a), n(b)]);
     let nrand = if tier == Tier::Quick { 20_000 } else { 2_000_000 };
     for _ in 0..nrand {
-        let op = rng.below(15);
+        let mut op = rng.below(24);
+        if op == 23 {
+            op = 24;
+        }
         let a = if rng.bool() { rng.next() } else { *rng.pick(&bs) };
         let b = match rng.below(4) {
             0 => rng.next(),
